@@ -38,7 +38,18 @@ use std::time::{Duration, Instant};
 #[global_allocator]
 static GLOBAL: alloc::Counting = alloc::Counting;
 
-const HARNESS_VERSION: u32 = 1;
+const HARNESS_VERSION: u32 = 2;
+/// Which build of the simulator this is: "full" links scale-info with
+/// std,derive,serde,decode,bit-vec,docs; "min" with std,derive,serde,decode.
+const VARIANT: &str = if cfg!(feature = "full") { "full" } else { "min" };
+
+fn variant_exe(variant: &str) -> PathBuf {
+    if variant == VARIANT {
+        return std::env::current_exe().expect("current exe");
+    }
+    let dir = if variant == "min" { "target-min" } else { "target" };
+    Path::new(VERIF_ROOT).join("sim").join(dir).join("release").join("sim")
+}
 const VERIF_ROOT: &str = "/verif";
 
 fn engine_id(e: &str) -> u64 {
@@ -65,27 +76,27 @@ fn plan(prop: &str) -> Option<Plan> {
     let p = match prop {
         "C01" => Plan {
             level: "exploration",
-            engines: vec![("regsim", 160_000, 16_000_000), ("tablesim", 100_000, 8_000_000)],
+            engines: vec![("regsim", 160_000, 16_000_000), ("regsim@min", 40_000, 4_000_000), ("tablesim", 100_000, 8_000_000), ("wiresim", 10_000, 600_000)],
             rule: "regsim runs are generated from the run seed (type graph over 32 node types and a fixed corpus, client scripts, simulated network order, consumer chain); a run is non-trivial when its final registry is non-empty and it had at least two deliveries or a non-empty consumer chain; tablesim runs count when a duplicate arrived after unrelated insertions; distinct = distinct scenario hashes among the non-trivial runs",
         },
         "C02" => Plan {
             level: "exploration",
-            engines: vec![("regsim", 160_000, 16_000_000)],
+            engines: vec![("regsim", 160_000, 16_000_000), ("regsim@min", 40_000, 4_000_000)],
             rule: "non-trivial: at least two deliveries and the published registry contains a cycle or some delivered reference went through an alias wrapper; distinct = distinct scenario hashes among those",
         },
         "C05" => Plan {
             level: "exploration",
-            engines: vec![("regsim", 160_000, 16_000_000)],
+            engines: vec![("regsim", 160_000, 16_000_000), ("regsim@min", 40_000, 4_000_000)],
             rule: "non-trivial: at least two deliveries and either an identity that was already present was delivered again or a reference went through an alias wrapper; distinct = distinct scenario hashes among those",
         },
         "C10" => Plan {
             level: "exploration",
-            engines: vec![("regsim", 160_000, 16_000_000)],
-            rule: "non-trivial: the consumer chain contained a retain that kept some but not all entries; distinct = distinct scenario hashes among those",
+            engines: vec![("regsim", 160_000, 16_000_000), ("regsim@min", 40_000, 4_000_000), ("wiresim", 30_000, 2_000_000)],
+            rule: "regsim: non-trivial when the consumer chain contained a retain that kept some but not all entries, distinct = distinct scenario hashes among those; wiresim: every well-formed frame (random registries of all eight definition kinds, publications, builder outputs, up to 6000 entries) is decoded and then retained with a drawn filter, counted when some but not all entries were kept",
         },
         "C11" => Plan {
             level: "exploration",
-            engines: vec![("regsim", 160_000, 16_000_000)],
+            engines: vec![("regsim", 160_000, 16_000_000), ("regsim@min", 40_000, 4_000_000)],
             rule: "non-trivial: at least two deliveries and either the replica's delivery order differs from the owner's or (fault-injecting configuration, 15% of the runs) a type_info() call unwound in the middle of a registration; distinct = distinct scenario hashes among those",
         },
         "C12" => Plan {
@@ -95,12 +106,12 @@ fn plan(prop: &str) -> Option<Plan> {
         },
         "C07" => Plan {
             level: "exploration",
-            engines: vec![("wiresim", 30_000, 2_000_000)],
+            engines: vec![("wiresim", 30_000, 2_000_000), ("wiresim@min", 10_000, 600_000)],
             rule: "a run writes 1-3 registries (random well-formed and ill-formed ones, registry publications, builder outputs, plus survivors of this run's fault cases) back to back through a chunked writer and reads them through four reader kinds; counted: distinct non-empty encodings that went through the fault-free configuration",
         },
         "C14" => Plan {
             level: "fault_enumeration",
-            engines: vec![("sweep", 96, 4_000), ("wiresim", 30_000, 2_000_000)],
+            engines: vec![("sweep", 96, 4_000), ("sweep@min", 32, 1_000), ("wiresim", 30_000, 2_000_000), ("wiresim@min", 10_000, 600_000)],
             rule: "sweep: for each frame of at most 2048 bytes every truncation point, every single-bit flip, an I/O error of 6 kinds at every offset and every targeted rewrite of every length / id / tag / option field, and on the JSON form of the same frame every single structural fault (18 replacement values at every node, deletion and renaming of every member, unknown and second-tag keys, array edits), every number token rewritten to 8 malformed / out-of-range numbers and every truncation of the text; wiresim: seeded sequences of 1-3 faults per case on multi-frame streams and on JSON text / JSON values; a case is non-trivial when its fault changed the bytes (for SCALE: inside a frame); distinct = distinct (scenario, case) pairs among those",
         },
         _ => return None,
@@ -158,12 +169,19 @@ struct ReplayFile {
     run_seed: u64,
     /// "violation" or "crash" (the worker process died or hung)
     kind: String,
+    /// which build of the simulator recorded it ("full" or "min")
+    #[serde(default = "default_variant")]
+    variant: String,
     minimised: bool,
     minimiser_executions: u32,
     original_size: usize,
     size: usize,
     #[serde(flatten)]
     scenario: Option<Scenario>,
+}
+
+fn default_variant() -> String {
+    "full".to_string()
 }
 
 fn replay_dir() -> PathBuf {
@@ -200,6 +218,7 @@ fn gen_scenario(engine: &str, verif_seed: u64, index: u64) -> Result<Scenario, S
                 writer: io::IoScript::plain(),
                 readers: vec![],
                 cases: vec![],
+                keeps: vec![],
             }))
         }
         _ => Err(format!("unknown engine {}", engine)),
@@ -332,6 +351,7 @@ fn worker(engine: &str, prop: &str, verif_seed: u64, from: u64, to: u64, step: u
                     run_index: i,
                     run_seed,
                     kind: "crash".into(),
+                    variant: VARIANT.into(),
                     minimised: false,
                     minimiser_executions: 0,
                     original_size: 0,
@@ -385,6 +405,8 @@ fn worker(engine: &str, prop: &str, verif_seed: u64, from: u64, to: u64, step: u
                     out.log_xor ^= r.log_hash.rotate_left((i % 63) as u32);
                     if prop == "C07" {
                         h_nontrivial.extend(r.frames_checked.iter().copied());
+                    } else if prop == "C10" || prop == "C01" {
+                        h_nontrivial.extend(r.retains_nontrivial.iter().copied());
                     } else {
                         h_nontrivial.extend(r.nontrivial_cases.iter().copied());
                     }
@@ -466,6 +488,7 @@ fn report_violation(
         run_index: index,
         run_seed,
         kind: "violation".into(),
+        variant: VARIANT.into(),
         minimised: m.accepted > 0,
         minimiser_executions: m.executions,
         original_size,
@@ -521,6 +544,22 @@ fn replay(path: &str, quiet: bool) -> i32 {
         eprintln!("unknown property {}", rf.property);
         return 2;
     };
+    if rf.variant != VARIANT {
+        // recorded by the other build of the simulator: let that one replay it
+        let exe = variant_exe(&rf.variant);
+        let mut c = Command::new(exe);
+        c.arg("replay").arg(path);
+        if quiet {
+            c.arg("--quiet");
+        }
+        return match c.status() {
+            Ok(st) => st.code().unwrap_or(1),
+            Err(e) => {
+                eprintln!("cannot run the {} build of the simulator: {}", rf.variant, e);
+                2
+            }
+        };
+    }
     if rf.kind == "crash" && rf.scenario.is_some() {
         // execute the recorded scenario in a child process: it reproduces if the child dies or hangs
         let attempt = Duration::from_secs(std::env::var("VERIF_CRASH_ATTEMPT_S").ok().and_then(|x| x.parse().ok()).unwrap_or(10));
@@ -659,7 +698,11 @@ enum ChildEnd {
 }
 
 fn run_child(args: &[&str], limit: Duration) -> (ChildEnd, String) {
-    let exe = std::env::current_exe().expect("current exe");
+    run_child_of(VARIANT, args, limit)
+}
+
+fn run_child_of(variant: &str, args: &[&str], limit: Duration) -> (ChildEnd, String) {
+    let exe = variant_exe(variant);
     let mut child = match Command::new(exe).args(args).stdout(Stdio::piped()).stderr(Stdio::piped()).spawn() {
         Ok(c) => c,
         Err(_) => return (ChildEnd::Error, String::new()),
@@ -701,7 +744,7 @@ fn crash_file(rf: &ReplayFile, dir: &Path, n: u32) -> PathBuf {
 /// child process, minimise it with child-process executions (small budget:
 /// every attempt costs a process, a hanging one costs the attempt timeout)
 /// and write the replay file.
-fn report_crash(prop: &str, verif_seed: u64, engine: &str, idx: u64, why: &str, detail: String) -> (String, ReplayFile) {
+fn report_crash(prop: &str, verif_seed: u64, engine: &str, variant: &str, idx: u64, why: &str, detail: String) -> (String, ReplayFile) {
     let run_seed = rng::run_seed(verif_seed, engine_id(engine), idx);
     let path = replay_path(prop, run_seed);
     let mut rf = ReplayFile {
@@ -714,6 +757,7 @@ fn report_crash(prop: &str, verif_seed: u64, engine: &str, idx: u64, why: &str, 
         run_index: idx,
         run_seed,
         kind: "crash".into(),
+        variant: variant.to_string(),
         minimised: false,
         minimiser_executions: 0,
         original_size: 0,
@@ -721,7 +765,7 @@ fn report_crash(prop: &str, verif_seed: u64, engine: &str, idx: u64, why: &str, 
         scenario: None,
     };
     let attempt = Duration::from_secs(std::env::var("VERIF_CRASH_ATTEMPT_S").ok().and_then(|x| x.parse().ok()).unwrap_or(10));
-    let (end, out) = run_child(&["dump", engine, &verif_seed.to_string(), &idx.to_string()], attempt * 3);
+    let (end, out) = run_child_of(variant, &["dump", engine, &verif_seed.to_string(), &idx.to_string()], attempt * 3);
     if end == ChildEnd::Held {
         if let Ok(scn) = serde_json::from_str::<Scenario>(&out) {
             let dir = scratch_dir(&format!("crashmin-{}", std::process::id()));
@@ -730,16 +774,16 @@ fn report_crash(prop: &str, verif_seed: u64, engine: &str, idx: u64, why: &str, 
             let want_hang = why == "hang";
             // the full scenario must show the failure in a child, or the file stays seed-only
             let p0 = crash_file(&rf, &dir, 0);
-            let (e0, _) = run_child(&["exec", p0.to_str().unwrap()], if want_hang { attempt } else { attempt * 6 });
+            let (e0, _) = run_child_of(variant, &["exec", p0.to_str().unwrap()], if want_hang { attempt } else { attempt * 6 });
             let bad = |e: ChildEnd| if want_hang { e == ChildEnd::Hung } else { e == ChildEnd::Died };
             if bad(e0) {
                 let mut n = 0u32;
                 let mut probe_rf = rf.clone();
-                let (min, execs, accepted) = minimise::minimise_by(&scn, 60, Duration::from_secs(240), &mut |cand| {
+                let (min, execs, accepted) = minimise::minimise_by(&scn, 40, Duration::from_secs(90), &mut |cand| {
                     n += 1;
                     probe_rf.scenario = Some(cand.clone());
                     let p = crash_file(&probe_rf, &dir, n);
-                    let (e, _) = run_child(&["exec", p.to_str().unwrap()], attempt);
+                    let (e, _) = run_child_of(variant, &["exec", p.to_str().unwrap()], attempt);
                     let _ = std::fs::remove_file(p);
                     bad(e)
                 });
@@ -815,7 +859,22 @@ fn check(prop: &str, tier: &str) -> i32 {
     let mut first_violation_worker: Option<(String, u64)> = None;
     let mut harness_error = false;
 
-    for (engine, quick, thorough) in &pl.engines {
+    let top_dir = dir.clone();
+    for (engine_label, quick, thorough) in &pl.engines {
+        // "engine@min": the same engine run by the feature-minimal build
+        let (engine, variant) = match engine_label.split_once('@') {
+            Some((e, v)) => (e, v),
+            None => (*engine_label, "full"),
+        };
+        let engine = &engine;
+        let exe = variant_exe(variant);
+        if !exe.exists() {
+            eprintln!("harness error: the {} build of the simulator is missing ({}); run ./check, which builds both", variant, exe.display());
+            harness_error = true;
+            continue;
+        }
+        let dir = top_dir.join(engine_label.replace('@', "-"));
+        std::fs::create_dir_all(&dir).expect("engine scratch dir");
         let runs = ((if tier == "quick" { *quick } else { *thorough }) as f64 * scale).ceil() as u64;
         let runs = runs.max(1);
         let w = workers.min(runs);
@@ -957,7 +1016,7 @@ fn check(prop: &str, tier: &str) -> i32 {
                         // one replay file per check is enough: minimising a crash costs processes
                         continue;
                     }
-                    let (path, rf) = report_crash(prop, verif_seed, engine, idx, &why, detail);
+                    let (path, rf) = report_crash(prop, verif_seed, engine, variant, idx, &why, detail);
                     let path = PathBuf::from(path);
                     println!("  {}", rf.detail);
                     let line = format!("VIOLATION property={} replay={}", prop, path.display());
@@ -973,7 +1032,7 @@ fn check(prop: &str, tier: &str) -> i32 {
         }
         let nt = read_hashes(&dir, &format!("{}.nontrivial", engine), w);
         distinct_nontrivial += nt.len() as u64;
-        if *engine == "regsim" {
+        if *engine_label == "regsim" {
             for n in ["order", "graph", "registry"] {
                 let d = read_hashes(&dir, &format!("regsim.{}", n), w).len() as u64;
                 extra_distinct.insert(format!("distinct_{}", match n { "order" => "delivery_orders", "graph" => "type_graphs", _ => "registries_reached" }), d);
@@ -981,7 +1040,8 @@ fn check(prop: &str, tier: &str) -> i32 {
         }
         let secs = te.elapsed().as_secs_f64();
         per_engine.push(json!({
-            "engine": engine,
+            "engine": engine_label,
+            "scale_info_features": if variant == "min" { "std,derive,serde,decode" } else { "std,derive,serde,decode,bit-vec,docs" },
             "runs": engine_runs,
             "workers": w,
             "wall_s": secs,
@@ -992,7 +1052,7 @@ fn check(prop: &str, tier: &str) -> i32 {
             break;
         }
     }
-    let _ = std::fs::remove_dir_all(&dir);
+    let _ = std::fs::remove_dir_all(&top_dir);
 
     // reach probes this property's check depends on must have fired
     let mut missing_probes = Vec::new();
@@ -1098,10 +1158,10 @@ fn required_probes(prop: &str) -> &'static [&'static str] {
     match prop {
         "C01" => &["checks.builder_finish_closed_for_disciplined_clients", "reach.builder_self_reference_protocol", "reach.cycle_in_registry", "reach.node_referenced_only_through_type_parameter", "chain.retain", "chain.scale_round_trip", "chain.builder_rebuild", "events.builder_finish", "kind.bitsequence", "kind.compact", "kind.array"],
         "C02" => &["reach.cycle_in_registry", "reach.alias_registered_before_target", "reach.node_referenced_only_through_type_parameter", "kind.variant", "kind.tuple"],
-        "C05" => &["reach.redelivery_of_known_identity", "reach.duplicate_after_unrelated_registrations", "reach.alias_registered_before_target", "reach.register_many_same_type_twice", "fault.duplicate_delivery"],
-        "C10" => &["reach.retain_partial", "reach.retain_kept_everything", "reach.retain_kept_nothing", "reach.retain_pulled_in_unaccepted_dependency", "reach.retain_kept_a_cycle_and_dropped_something"],
+        "C05" => &["fault.unwind_in_type_info.fired", "reach.registration_after_an_unwound_one", "reach.redelivery_of_known_identity", "reach.duplicate_after_unrelated_registrations", "reach.alias_registered_before_target", "reach.register_many_same_type_twice", "fault.duplicate_delivery"],
+        "C10" => &["checks.retain_after_decode", "reach.retain_on_registry_with_bit_sequence", "reach.retain_partial", "reach.retain_kept_everything", "reach.retain_kept_nothing", "reach.retain_pulled_in_unaccepted_dependency", "reach.retain_kept_a_cycle_and_dropped_something"],
         "C11" => &["fault.unwind_in_type_info.fired", "reach.registration_after_an_unwound_one", "checks.fault_injecting_configuration", "reach.replica_order_differs", "checks.replay", "checks.replica_compared", "fault.reordered_delivery", "fault.duplicate_delivery"],
-        "C12" => &["reach.builder_duplicate_after_unrelated_inserts", "reach.builder_self_reference_through_next_type_id", "reach.builder_self_reference_deduplicated_to_older_index", "reach.builder_get_beyond_end", "reach.interner_resolve_out_of_range", "reach.interner_get_unknown", "reach.interner_duplicate_after_unrelated_inserts"],
+        "C12" => &["fault.unwind_in_key_clone_or_cmp.fired", "reach.unwound_operation_had_no_effect", "checks.interner_fault_injecting_configuration", "reach.builder_duplicate_after_unrelated_inserts", "reach.builder_self_reference_through_next_type_id", "reach.builder_self_reference_deduplicated_to_older_index", "reach.builder_get_beyond_end", "reach.interner_resolve_out_of_range", "reach.interner_get_unknown", "reach.interner_duplicate_after_unrelated_inserts"],
         "C07" => &["frame_source.many_types", "frame_source.bulk_collection", "reach.remaining_len_none_path", "reach.io_reader_path", "benign.short_read", "benign.eintr_on_read", "benign.short_write", "checks.survivor_round_trip", "compact_class.frame_len.1byte", "compact_class.frame_len.2byte", "compact_class.frame_len.4byte"],
         "C14" => &["sweep.frames_swept", "sweep.single_faults.json_structural", "sweep.single_faults.json_text", "sweep.single_faults.targeted_rewrites", "fault.truncate.effective", "fault.flip_bit.effective", "fault.rewrite.vec_len.effective", "fault.rewrite.id.effective", "fault.rewrite.def_tag.effective", "fault.io_error_returned_to_decoder", "reach.decode_survived_a_fault_with_a_new_registry", "reach.decode_consumed_less_than_medium", "fault.json_structural.effective", "fault.json_structural.survived", "reach.io_error_inside_frames"],
         _ => &[],
